@@ -399,6 +399,7 @@ impl<'a> Gen<'a> {
             populate: false,
             txs,
             origin: format!("grammar profile={}", profile_name(self.cfg.profile)),
+            pins: vec![],
         }
     }
 
